@@ -203,9 +203,12 @@ class SimulatorWorkerThread(Thread):
             if not self._finalized:
                 if self._job._replication_state != ReplicationState.ENDING:
                     try:
+                        # STARTED before the notification (as in step()): a
+                        # stop() issued by a listener of START_EVENT must not
+                        # be overwritten by this assignment
+                        self._job._run_state = RunState.STARTED
                         self._job.fire_timed(self._job.simulator_time,
                             Simulator.START_EVENT, None)
-                        self._job._run_state = RunState.STARTED
                         self._job._run()
                         self._job.fire_timed(self._job.simulator_time,
                             Simulator.STOP_EVENT, None)
